@@ -66,6 +66,8 @@ class Entry:
                 # with an exception in flight the exit's result is tested for truth: the failure may come from that test
                 return RaisesWhenTested(exc)
             raise exc
+        if b == "falsy" and ev is not None and self.id % 5 == 3 and self.kind not in ("acb", "scb"):
+            raise ev          # not suppressing by re-raising what was received: the same exception stays in flight
         return b == "truthy"
 
     def raised_id(self, inflight):
